@@ -3,6 +3,7 @@ package main
 import (
 	"fmt"
 	"go/token"
+	"go/types"
 	"strings"
 
 	"golang.org/x/tools/go/ssa"
@@ -410,6 +411,83 @@ func runC13(r *Run) {
 			}
 		}
 		r.atLeast("keyed store accesses in the handlers", n, 4)
+	})
+
+	r.rule("R15", "the default MaxFunc answers the limit configDefault settles on: where the default MaxFunc is built from a value of cfg.Max (captured, or handed to a constructor), no later write of cfg.Max follows — a value read ahead of the `Max <= 0` fallback is 0 for an unset Max, and both algorithms treat a limit of 0 as `do not limit` (E10 order)", func() {
+		f := r.Fn(limPkg, "configDefault")
+		isMaxStore := func(in ssa.Instruction) bool {
+			st, ok := in.(*ssa.Store)
+			if !ok {
+				return false
+			}
+			fa, ok := st.Addr.(*ssa.FieldAddr)
+			if !ok {
+				return false
+			}
+			fv := fieldVar(fa.X.Type(), fa.Field)
+			return fv != nil && fieldOwner(fv)+"."+fv.Name() == "limiter.Config.Max"
+		}
+		n := 0
+		for _, fr := range fieldRefs(f) {
+			if !fr.Write || fr.Name != "limiter.Config.MaxFunc" || fr.Val == nil || constIsNil(asConst(fr.Val)) {
+				continue
+			}
+			if isDef, _ := func() (bool, string) {
+				ld, ok := fr.Val.(*ssa.UnOp)
+				if !ok {
+					return false, ""
+				}
+				fa, ok := ld.X.(*ssa.FieldAddr)
+				if !ok {
+					return false, ""
+				}
+				_, isG := fa.X.(*ssa.Global)
+				return isG, ""
+			}(); isDef {
+				continue
+			}
+			n++
+			// the values of cfg.Max the function is built from (a captured cell reads Max when it is called: nothing to check)
+			var early []string
+			var vals []ssa.Value
+			if mc, ok := fr.Val.(*ssa.MakeClosure); ok {
+				for _, b := range mc.Bindings {
+					cell, isCell := b.(*ssa.Alloc)
+					if !isCell {
+						vals = append(vals, b)
+						continue
+					}
+					// the captured configuration itself is read when the function is called; a captured local of its
+					// own (`maxRequests := cfg.Max`) holds what was stored into it
+					if pt, ok := cell.Type().Underlying().(*types.Pointer); ok && namedTypeName(pt.Elem()) == "Config" {
+						continue
+					}
+					for _, st := range storesInto(cell) {
+						vals = append(vals, st.Val)
+					}
+				}
+			} else {
+				vals = append(vals, fr.Val)
+			}
+			for _, v := range vals {
+				seen := map[ssa.Value]bool{}
+				dependsOn(v, func(x ssa.Value) bool {
+					if seen[x] || !loadOfField(x, "limiter.Config.Max") {
+						return false
+					}
+					seen[x] = true
+					if in, ok := x.(ssa.Instruction); ok && in.Parent() == f {
+						if _, hit := reach(pointAfter(in), isMaxStore, nil, nil); hit != nil {
+							early = append(early, r.pos(in))
+						}
+					}
+					return false
+				})
+			}
+			r.check(len(early) == 0, fmt.Sprintf("configDefault:default-MaxFunc#%d:built-from-the-settled-Max", n), r.pos(fr.Instr), "every value of cfg.Max that goes into the default MaxFunc is read after the last write of cfg.Max",
+				"the default MaxFunc is built from cfg.Max as it was before the fallback ("+strings.Join(early, ", ")+"): a Config without Max and MaxFunc limits nothing (the handlers ask MaxFunc, which answers 0), a negative Max rejects everything")
+		}
+		r.atLeast("default MaxFunc assignments in configDefault", n, 1)
 	})
 
 	r.rule("R14", "a request's outcome is judged by what the client will get: where a handler decides whether the request failed (a status compared with 400, behind SkipSuccessfulRequests / SkipFailedRequests), the status takes the error c.Next() returned into account — a handler that fails by returning an error still has status 200 at that point, the error handler runs later (E3)", func() {
